@@ -3,7 +3,7 @@ the evidence says about the trusted base."""
 
 COMMON_TB = [
     "Coq 8.16.1 kernel (coqc, full .vo build; no native_compute; vm_compute only on closed terms)",
-    "extraction with ExtrOcamlBasic only (bool/option/unit/list/prod/sumbool/sumor to OCaml types; no Extract Constant of our own), OCaml 4.13.1 compiler, ocaml/driver.ml I/O shell — cross-checked on every run: a sample of the shorter cases (3 per suite quick, 20 thorough) is evaluated inside Coq with vm_compute from independently translated Gallina terms and must print what the extracted model printed",
+    "extraction with ExtrOcamlBasic only (bool/option/unit/list/prod/sumbool/sumor to OCaml types; no Extract Constant of our own), OCaml 4.13.1 compiler, ocaml/driver.ml I/O shell — cross-checked on every run: a sample of the shorter cases (2 per suite quick, 20 thorough) is evaluated inside Coq with vm_compute from independently translated Gallina terms and must print what the extracted model printed",
     "Rust harness (generators, monitors, MemSys, scheduler shim) and the canonical printers on both sides",
     "the correspondence is sampling: model = code is shown on the cases run, not for all inputs",
 ]
@@ -88,7 +88,7 @@ PROPS = {
                 "plus every crash point (every file-system mutation incl. torn writes) of builds and cleans from five kinds of prior state. After every "
                 "operation and at every crash point every cache file name is recomputed from its bytes (harness's own SHA-256 + base-62) and the cache "
                 "listing (names and contents) is compared with the model. Distinct by hash of the history; non-trivial = contains a successful build."
-                + " Round 2: suite swap — 200 quick / 3000 thorough histories that exchange and restore the values of two leaves feeding a two-target rule (or two rules), with a rule toggled between failing and fixed and cleans, three quarters under the coarse clock; the cache-naming monitor runs under both clocks.",
+                + " Round 2: suite swap — 100 quick / 3000 thorough histories that exchange and restore the values of two leaves feeding a two-target rule (or two rules), with a rule toggled between failing and fixed and cleans, three quarters under the coarse clock; the cache-naming monitor runs under both clocks.",
         "trusted_base": COMMON_TB + [
             "the LTS step relation (coq/Model/Inv.v) is the vocabulary of actions on shared state; that ruler's threads perform only such actions is shown for the sequential model (build/clean are step sequences, proved) and sampled for the implementation",
             "directories and path resolution are not modelled (flat path map)",
@@ -179,7 +179,7 @@ PROPS = {
     },
     "C02": {
         "level": "proof",
-        "suites": ["hist"],
+        "suites": ["hist", "mixed"],
         "columns": ["verdict", "cmds"],
         "rule": "histories over the full C01 alphabet generated while running (edit/revert source, edit rules incl. invalid files, build, goal build, clean, goal clean, tamper, delete target, delete cache entry, delete ruler directory or parts, chmod), 260 quick / 4000 thorough, graphs of 1..6 (9) rules with multi-target rules, transitive edges, commands in a mini-language (constant, copy, concatenation with tags from a small pool so equal contents are common, chmod), a quarter with failing rules and missing leaves; corpus cases first. After every op the implementation's verdict, executed script lines, status lines, workspace, cache listing, decoded history files and file-state table are compared with the model (only the columns this property reads). Distinct by hash of the history; non-trivial = contains a successful build." + " Monitor: an independent ledger of (rule identity, source contents) -> outputs flags any command the property forbids, commands run twice, and any command or file modification in a repeated build.",
         "trusted_base": COMMON_TB,
@@ -248,7 +248,7 @@ PROPS = {
     },
     "C01": {
         "level": "proof",
-        "suites": ["hist", "crash", "real_hist"],
+        "suites": ["hist", "crash", "c13_shared", "real_hist"],
         "columns": ["verdict", "files"],
         "rule": PROPS_HIST_RULE + " Monitor: after every successful build (whole or goal-restricted) every in-scope target is compared with an evaluator written independently of ruler (own dependency order, own interpreter of the command mini-language) that computes the from-scratch contents from the current source files."
                 + " Round 2: the crash suite is part of this check too: from every crash state of a killed build a second continuation re-applies the other version of the edited source and builds, with the C01 monitor on."
